@@ -1191,6 +1191,36 @@ def explore_finish(ctx, rep, tier, table, handle):
             rep.sample({"chain": k[0], "size_mb": k[1], "peak_above_baseline_mb": v})
 
 
+def check_memory_limit(ctx, rep, rng, tier):
+    """get_memory_limit() is the max_block of the proved bounds (live bytes <= 2*max_block + block size): whatever the data-segment
+    limit of the process is, it has to stay within the 128 MB extraction chunk the budget was sized for (and be positive)"""
+    import subprocess
+    code = ("import resource,sys\n"
+            "lim=int(sys.argv[1])\n"
+            "if lim>0: resource.setrlimit(resource.RLIMIT_DATA,(lim,resource.getrlimit(resource.RLIMIT_DATA)[1]))\n"
+            "from py7zr.properties import get_memory_limit\n"
+            "print(int(get_memory_limit()))\n")
+    env = dict(os.environ)
+    seen = {}
+    for lim in (0, 600 * MB, 768 * MB, 1024 * MB, 2048 * MB, 3072 * MB, 8192 * MB, 1 << 40):
+        try:
+            r = subprocess.run([sys.executable, "-c", code, str(lim)], capture_output=True, text=True, timeout=60, env=env)
+            val = int(r.stdout.strip().splitlines()[-1]) if r.returncode == 0 and r.stdout.strip() else None
+        except Exception:  # noqa
+            val = None
+        seen["unlimited" if lim == 0 else "%d MiB" % (lim // MB)] = val
+        rep.count(("memory-limit", lim), nontrivial=True)
+        if val is None:
+            continue            # the interpreter could not start under that limit: nothing to say
+        if not (0 < val <= 128 * 1000 * 1000):
+            rep.violation("get_memory_limit() = %d under a data-segment limit of %s: the per-step output bound of extraction has to stay "
+                          "within the 128 MB chunk (the proved live-byte bound is 2*max_block + block size)" % (
+                              val, "unlimited" if lim == 0 else "%d MiB" % (lim // MB)),
+                          {"kind": "memory-limit", "rlimit_data": lim, "value": val}, match_keys={"kind": "memory-limit"})
+            break
+    rep.extra["get_memory_limit_by_rlimit_data"] = seen
+
+
 def run(ctx):
     rep, tier = ctx["rep"], ctx["tier"]
     rng = random.Random(ctx["seed"])
@@ -1203,7 +1233,7 @@ def run(ctx):
                        "member >= 128 MiB, i.e. above the 128e6 extraction chunk")
     table = None
     handle = explore_start(tier)
-    for part in (check_toy_decompress, check_toy_worker, check_toy_compress):
+    for part in (check_toy_decompress, check_toy_worker, check_toy_compress, check_memory_limit):
         try:
             part(ctx, rep, rng, tier)
         except Exception as e:  # noqa
